@@ -59,7 +59,7 @@ META = dict(
          'unimodular re-descriptions, random orientation, NOSYM on/off, 2-D and 3-D); non-trivial = more than the identity '
          'reported or more than one atom; distinct by exact (metric, basis, spins, flags)',
     trusted=['harness/c18lib.py (generators, snapping, float oracles, native driver build; Crystal.genBZG is stubbed out for speed — it is C22\'s subject and its result is not read by the symmetry code)'],
-    assumptions=['scalar spins in {-1,0,1}; complex / vector spins are not modelled',
+    assumptions=['exact model and verified checkers: scalar spins in {-1,0,1}; VECTOR spins (collinear / covariant / counter-winding textures, 3-D and 2-D) are covered by the direct float oracles only (every op rotates each spin onto the spin of its image up to one global sign; closure; symmetries known by construction are reported); complex spins are not covered',
                  'distinct atoms are > 1e-3 apart and symmetry is broken by > 1e-3 or not at all (threshold regime excluded)',
                  'noreduce=True skew cells are in the main stream (checkers + exact gengroup model with the complete candidate box)'],
 )
@@ -357,6 +357,48 @@ def _noise_stream(ctx, n, nprng):
                           _replay(xc, dict(noise=2e-10)))
 
 
+def _vector_spin_stream(ctx, n, nprng):
+    """VECTOR spins (collinear, covariant and counter-winding textures, random), 3-D and 2-D: float oracles only"""
+    rng = ctx.rng
+    crystal = X.crystal_module()
+    # deterministic: trimer around the c-axis of a hexagonal cell, spins winding with / against the positions
+    def rotz(t):
+        c, s = np.cos(t), np.sin(t)
+        return np.array([[c, -s, 0.], [s, c, 0.], [0., 0., 1.]])
+    fixed = []
+    latt = np.array([[0.5, 0.5, 0.], [-np.sqrt(0.75), np.sqrt(0.75), 0.], [0., 0., 1.3]])
+    for chir in (1, -1):
+        r0 = np.array([0.3, 0., 0.]); s0 = np.array([np.cos(0.4), np.sin(0.4), 0.])
+        b = [[np.linalg.solve(latt, rotz(2 * np.pi * k / 3) @ r0) + np.array([0., 0., 0.5]) for k in range(3)]]
+        sp = [[rotz(chir * 2 * np.pi * k / 3) @ s0 for k in range(3)]]
+        fixed.append((latt, b, sp, None, dict(cls='hexP', d=3, mode='trimer chirality %+d' % chir, lattice_columns=latt.T.tolist(),
+                                               basis=[[u.tolist() for u in a] for a in b], spins=[[v.tolist() for v in l] for l in sp])))
+    for k in range(n):
+        L, basis, spins, known, desc = fixed[k] if k < len(fixed) else X.vector_spin_crystal(rng, nprng)
+        try:
+            crys = crystal.Crystal(L, [[u.copy() for u in a] for a in basis], spins=[[v.copy() for v in sl] for sl in spins])
+        except (ArithmeticError, RecursionError) as e:
+            ctx.count('ctor:%s(reduce/minlattice; C19)' % type(e).__name__); continue
+        except Exception as e:
+            ctx.violation('vector-spins:ctor-raises:%s' % type(e).__name__, 'Crystal with vector spins raises %r' % (e,), desc); continue
+        ctx.count('vector-spins:' + desc['mode'].split()[0])
+        ctx.case(('vspin', k, desc['mode'], str(desc['basis'])[:200]), nontrivial=len(crys.G) > 1)
+        rp = dict(desc, nops=len(crys.G))
+        for sig, what in (X.oracle_ops(crys) + X.oracle_group(crys))[:2]:
+            ctx.violation('vector-spins:' + sig, what, rp)
+        if known is not None and crys.N == sum(len(a) for a in basis):
+            T = np.linalg.solve(L, crys.lattice)
+            if np.abs(T - np.round(T)).max() < 1e-8 and abs(abs(round(np.linalg.det(np.round(T)))) - 1) == 0:
+                Tq = [[int(round(x)) for x in r] for r in T]
+                have = set(tuple(tuple(int(x) for x in r) for r in g.rot) for g in crys.G)
+                for R in known:
+                    Ro = X.conj_int(R, Tq)
+                    if Ro is None or Ro not in have:
+                        ctx.violation('vector-spins:missing-known-symmetry', 'covariant spin texture: rotation %s generated the atoms and their '
+                                      'spins, so it is a symmetry, but no reported operation has it' % (list(map(list, R)),), rp)
+                        break
+
+
 def _noreduce_stream(ctx, n, nprng):
     """noreduce=True on deliberately non-reduced cell descriptions (float oracles)"""
     rng = ctx.rng
@@ -407,6 +449,7 @@ def run(ctx):
     answers = X.run_driver(ctx, DRV, MODELS, lines)
     _evaluate(ctx, lines, pending, answers)
     _noise_stream(ctx, 12 if ctx.quick else 150, nprng)
+    _vector_spin_stream(ctx, 40 if ctx.quick else 600, nprng)
 
 
 def search(ctx, reasons):
